@@ -48,6 +48,7 @@ type kvsLock struct {
 	future  atomic.Value     // timeout.Future
 	lckCntr int32
 	waiters int32
+	tenure  int32 // number of Unlock() calls so far: a lease refresh chain belongs to the tenure it was started in
 }
 
 // LockProvider helper interface to indicate that the object has
@@ -111,7 +112,8 @@ func (l *kvsLock) TryLock(ctx context.Context) bool {
 		Value:     cast.StringToByteArray(""),
 		ExpiresAt: cast.Ptr(time.Now().Add(l.dlp.leaseTTL)),
 	}); err == nil {
-		l.future.Store(timeout.Call(func() { l.supportTimeout(ver) }, l.dlp.leaseTTL/2))
+		tn := atomic.LoadInt32(&l.tenure)
+		l.future.Store(timeout.Call(func() { l.supportTimeout(ver, tn) }, l.dlp.leaseTTL/2))
 		return true
 	}
 	atomic.StoreInt32(&l.lckCntr, 0)
@@ -138,6 +140,7 @@ func (l *kvsLock) Unlock() {
 		l.dlp.logger.Errorf("kvsLock.Unlock(): wrong object state: %s", l.String())
 		panic("kvsLock: an attempt to unlock not-locked object " + l.String())
 	}
+	atomic.AddInt32(&l.tenure, 1)
 
 	future := l.future.Load().(timeout.Future)
 	future.Cancel()
@@ -174,7 +177,8 @@ func (l *kvsLock) lockWithCtx(ctx context.Context) error {
 			ExpiresAt: cast.Ptr(time.Now().Add(l.dlp.leaseTTL)),
 		})
 		if err == nil {
-			l.future.Store(timeout.Call(func() { l.supportTimeout(ver) }, l.dlp.leaseTTL/2))
+			tn := atomic.LoadInt32(&l.tenure)
+			l.future.Store(timeout.Call(func() { l.supportTimeout(ver, tn) }, l.dlp.leaseTTL/2))
 			return nil
 		}
 
@@ -193,8 +197,12 @@ func (l *kvsLock) lockWithCtx(ctx context.Context) error {
 // the function is tricky, cause it uses CAS operation to update the record version and if the version
 // is updated, it recharges the timeout. This is where the new raise can happen and the new future may
 // overwrite the future flag stored in the atomic.
-func (l *kvsLock) supportTimeout(ver string) {
+func (l *kvsLock) supportTimeout(ver string, tn int32) {
 	future := l.future.Load().(timeout.Future)
+	if atomic.LoadInt32(&l.tenure) != tn {
+		// the lock was released already, there is nothing to support
+		return
+	}
 	r, err := l.dlp.Storage.CasByVersion(context.Background(), kvs.Record{
 		Key:       l.key,
 		Value:     cast.StringToByteArray(""),
@@ -202,20 +210,25 @@ func (l *kvsLock) supportTimeout(ver string) {
 		ExpiresAt: cast.Ptr(time.Now().Add(l.dlp.leaseTTL)),
 	})
 	if err != nil {
-		if errors.Is(err, errors.ErrNotExist) || errors.Is(err, errors.ErrConflict) || !l.isLocked() {
+		if errors.Is(err, errors.ErrNotExist) || errors.Is(err, errors.ErrConflict) || !l.isLocked() || atomic.LoadInt32(&l.tenure) != tn {
 			l.dlp.logger.Debugf("supportTimeout raise detected, just do nothing for the key=%s, err=%s", l.key, err)
 			return
 		}
 		// the storage could not answer, but the lock is still held: the record must be refreshed
 		// before the lease runs out, so try again shortly with the same version
 		l.dlp.logger.Warnf("supportTimeout could not refresh the key=%s, will try again: %s", l.key, err)
-		newFuture := timeout.Call(func() { l.supportTimeout(ver) }, l.dlp.leaseTTL/8)
+		newFuture := timeout.Call(func() { l.supportTimeout(ver, tn) }, l.dlp.leaseTTL/8)
 		if !l.future.CompareAndSwap(future, newFuture) {
 			newFuture.Cancel()
 		}
 		return
 	}
-	newFuture := timeout.Call(func() { l.supportTimeout(r.Version) }, l.dlp.leaseTTL/2)
+	if atomic.LoadInt32(&l.tenure) != tn {
+		// the lock was released while the refresh was on its way. If the record is still there (the Delete
+		// in Unlock failed), it is not supported anymore and will expire
+		return
+	}
+	newFuture := timeout.Call(func() { l.supportTimeout(r.Version, tn) }, l.dlp.leaseTTL/2)
 	if !l.future.CompareAndSwap(future, newFuture) {
 		// somebody already started the new timer, so drop this and forget about the incident
 		l.dlp.logger.Debugf("supportTimeout raise 2 detected, just cancelling the call timeout")
